@@ -92,6 +92,13 @@ def is_zero(expr):
             return True
     except Exception:
         pass
+    # the fast path is complete for rational functions of independent atoms; the gcd-based form below only
+    # helps with radicals that expand() leaves alone, and is exponential on large non-zero expressions
+    try:
+        if sympy.count_ops(expr) > 400:
+            return False
+    except Exception:
+        return False
     e = sympy.cancel(sympy.together(sympy.expand(expr)))
     if e == 0:
         return True
